@@ -2,6 +2,7 @@ package main
 
 import (
 	"context"
+	"database/sql"
 	"encoding/json"
 	"errors"
 	"fmt"
@@ -64,9 +65,10 @@ type c11Family struct {
 }
 
 type c11World struct {
-	Family   string               `json:"family"`
+	Family   string              `json:"family"`
 	Tables   map[string][]c11Row `json:"tables"`
-	unscoped bool                 // the operation runs under db.Unscoped(): the soft-delete scope is "every row"
+	unscoped bool                // the operation runs under db.Unscoped(): the soft-delete scope is "every row"
+	idx      *c11Index           // optional hash index for the reference join (scale worlds, see c11_scale.go); nil = nested loops
 }
 
 var c11Families = map[string]*c11Family{}
@@ -221,6 +223,9 @@ func c11Match(pairs [][2]string, a, b c11Row) bool {
 // children of one parent row under one relation: live, satisfying cond, sorted by n.
 // A child linked twice through a join table appears twice (multiset).
 func (w c11World) children(rel *c11RelD, p c11Row, cond c11Cond) []c11Row {
+	if w.idx != nil {
+		return w.childrenIndexed(rel, p, cond)
+	}
 	var out []c11Row
 	for _, c := range w.Tables[rel.Child] {
 		if (!w.unscoped && !c11Live(c)) || !cond.ok(c11N(c)) {
@@ -322,11 +327,11 @@ func (w c11World) collides(f *c11Family) bool {
 
 // one node of the load tree: relation Rel of the enclosing model, loaded by Preload or by (Inner)Joins
 type c11Node struct {
-	Rel      string     `json:"rel"`
-	Join     bool       `json:"join,omitempty"`
-	Inner    bool       `json:"inner,omitempty"`
-	Cond     c11Cond    `json:"cond"`
-	Explicit bool       `json:"explicit,omitempty"` // interior preload node without condition: call Preload(path) itself too
+	Rel      string  `json:"rel"`
+	Join     bool    `json:"join,omitempty"`
+	Inner    bool    `json:"inner,omitempty"`
+	Cond     c11Cond `json:"cond"`
+	Explicit bool    `json:"explicit,omitempty"` // interior preload node without condition: call Preload(path) itself too
 	// join nodes: column list of the joined relation, given on the join's handle as Select(...) / Omit(...) (db or Go field
 	// names); the row number n always stays selected, so which child was attached remains observable
 	Sel  []string   `json:"sel,omitempty"`
@@ -349,6 +354,10 @@ type c11Op struct {
 	// conditions), so the second load must replace, not extend, what the struct already carries
 	Twice    bool `json:"twice,omitempty"`
 	Unscoped bool `json:"unscoped,omitempty"` // db.Unscoped(): soft-deleted parents / children are part of the result
+	// WHERE the operation runs: "" = a plain session; tx = inside a user transaction in which the WHOLE world was inserted and
+	// is still uncommitted (a child query that leaves the transaction finds empty tables / a locked database); prepare = on a
+	// Session{PrepareStmt: true}; conn = inside db.Connection(…) on a pinned connection; txprepare = both
+	Ctx string `json:"ctx,omitempty"`
 }
 
 // an injected failure of the K-th query (0-based, counted over the queries the operation sends)
@@ -380,14 +389,62 @@ func c11OpenWorldRec(f *c11Family, w c11World) (*gorm.DB, *Recorder, func()) {
 		panic(err)
 	}
 	for _, t := range f.Tables {
-		for _, r := range w.Tables[t.Name] {
-			var cols, qs []string
-			var args []interface{}
-			keys := make([]string, 0, len(r))
-			for k := range r {
-				keys = append(keys, k)
-			}
-			sort.Strings(keys)
+		c11InsertRows(sqlDB, t, w.Tables[t.Name])
+	}
+	return db, rec, func() { sqlDB.Close() }
+}
+
+// multi-row INSERTs (one transaction per table, at most ~900 bind variables per statement)
+func c11InsertRows(sqlDB *sql.DB, t *c11Table, rows []c11Row) {
+	if len(rows) == 0 {
+		return
+	}
+	tx, err := sqlDB.Begin()
+	if err != nil {
+		panic(err)
+	}
+	c11InsertRowsVia(func(q string, args ...interface{}) error { _, e := tx.Exec(q, args...); return e }, t, rows)
+	if err := tx.Commit(); err != nil {
+		panic(err)
+	}
+}
+
+func c11InsertRowsVia(exec func(q string, args ...interface{}) error, t *c11Table, rows []c11Row) {
+	if len(rows) == 0 {
+		return
+	}
+	colSet := map[string]bool{}
+	for _, r := range rows {
+		for k := range r {
+			colSet[k] = true
+		}
+	}
+	idCol := c11IDCol(t)
+	addID := t.Model != nil && idCol != "" && !colSet[idCol] && !hasCol(t, idCol)
+	keys := make([]string, 0, len(colSet))
+	for k := range colSet {
+		keys = append(keys, k)
+	}
+	sort.Strings(keys)
+	var cols []string
+	for _, k := range keys {
+		cols = append(cols, "`"+k+"`")
+	}
+	if addID {
+		cols = append(cols, "`"+idCol+"`")
+	}
+	one := "(" + strings.TrimSuffix(strings.Repeat("?,", len(cols)), ",") + ")"
+	per := 900 / len(cols)
+	if per < 1 {
+		per = 1
+	}
+	for lo := 0; lo < len(rows); lo += per {
+		hi := lo + per
+		if hi > len(rows) {
+			hi = len(rows)
+		}
+		args := make([]interface{}, 0, (hi-lo)*len(cols))
+		for _, r := range rows[lo:hi] {
 			for _, k := range keys {
 				v := c11Norm(r[k])
 				if k == "deleted_at" {
@@ -399,21 +456,17 @@ func c11OpenWorldRec(f *c11Family, w c11World) (*gorm.DB, *Recorder, func()) {
 				} else if s, ok := v.(string); ok && t.col(k).Typ == "bytes" {
 					v = []byte(s)
 				}
-				cols = append(cols, "`"+k+"`")
-				qs = append(qs, "?")
 				args = append(args, v)
 			}
-			if t.Model != nil && r["id"] == nil && hasCol(t, "id") == false && modelHasID(t.Model) {
-				cols = append(cols, "`id`")
-				qs = append(qs, "?")
+			if addID {
 				args = append(args, c11N(r))
 			}
-			if _, err := sqlDB.Exec("INSERT INTO `"+t.Name+"` ("+strings.Join(cols, ",")+") VALUES ("+strings.Join(qs, ",")+")", args...); err != nil {
-				panic(fmt.Sprintf("c11 load %s %v: %v", t.Name, r, err))
-			}
+		}
+		q := "INSERT INTO `" + t.Name + "` (" + strings.Join(cols, ",") + ") VALUES " + strings.TrimSuffix(strings.Repeat(one+",", hi-lo), ",")
+		if err := exec(q, args...); err != nil {
+			panic(fmt.Sprintf("c11 load %s rows %d..%d: %v", t.Name, lo, hi, err))
 		}
 	}
-	return db, rec, func() { sqlDB.Close() }
 }
 
 func hasCol(t *c11Table, name string) bool {
@@ -423,6 +476,17 @@ func hasCol(t *c11Table, name string) bool {
 		}
 	}
 	return false
+}
+
+// column of the model's surrogate `ID` field ("" when it has none): `id` unless renamed by a column: tag
+func c11IDCol(t *c11Table) string {
+	if t.Model == nil || !modelHasID(t.Model) {
+		return ""
+	}
+	if f := c11Schema(t).LookUpField("ID"); f != nil {
+		return f.DBName
+	}
+	return ""
 }
 
 func modelHasID(m interface{}) bool {
@@ -435,6 +499,9 @@ func (t *c11Table) typ() reflect.Type { return reflect.TypeOf(t.Model).Elem() }
 // apply a condition to a Preload call
 func c11PreloadArgs(c c11Cond) []interface{} {
 	if c.Kind == "" {
+		if c.Style == "idfunc" { // Preload(name, func(db *gorm.DB) *gorm.DB { return db }): a function condition that adds nothing
+			return []interface{}{func(tx *gorm.DB) *gorm.DB { return tx }}
+		}
 		return nil
 	}
 	s, a := c.sql("n")
@@ -498,7 +565,7 @@ func (f *c11Family) applyNodes(db, q *gorm.DB, t *c11Table, prefix []string, nod
 			} else {
 				q = q.Joins(name, args...)
 			}
-		} else if nd.Cond.Kind != "" || len(nd.Kids) == 0 || nd.Explicit {
+		} else if nd.Cond.Kind != "" || nd.Cond.Style == "idfunc" || len(nd.Kids) == 0 || nd.Explicit {
 			q = q.Preload(name, c11PreloadArgs(nd.Cond)...)
 		}
 		q = f.applyNodes(db, q, f.table(rel.Child), path, nd.Kids)
@@ -638,9 +705,42 @@ func c11RunCase(cs c11Case) (got, want []string, err error) {
 	if f == nil {
 		return nil, nil, fmt.Errorf("unknown family %q", cs.World.Family)
 	}
+	if cs.Op.Ctx == "tx" || cs.Op.Ctx == "txprepare" {
+		return c11RunCaseInTx(f, cs)
+	}
 	db, closeFn := c11OpenWorld(f, cs.World)
 	defer closeFn()
 	return c11ExecCase(db, nil, cs)
+}
+
+// the world is inserted INSIDE a user transaction and the operation runs on the transaction handle before anything is
+// committed; afterwards the transaction is rolled back
+func c11RunCaseInTx(f *c11Family, cs c11Case) (got, want []string, err error) {
+	empty := c11World{Family: cs.World.Family, Tables: map[string][]c11Row{}}
+	db, closeFn := c11OpenWorld(f, empty)
+	defer closeFn()
+	if cs.Op.Ctx == "txprepare" {
+		db = db.Session(&gorm.Session{PrepareStmt: true})
+	}
+	tx := db.Begin()
+	if tx.Error != nil {
+		return nil, nil, tx.Error
+	}
+	defer tx.Rollback()
+	func() {
+		defer func() {
+			if p := recover(); p != nil {
+				err = fmt.Errorf("loading the world inside the transaction: %v", p)
+			}
+		}()
+		for _, t := range f.Tables {
+			c11InsertRowsVia(func(q string, args ...interface{}) error { return tx.Exec(q, args...).Error }, t, cs.World.Tables[t.Name])
+		}
+	}()
+	if err != nil {
+		return nil, nil, err
+	}
+	return c11ExecCase(tx, nil, cs)
 }
 
 // run the operation of one case on an opened world (the operations only read); ctx (optional) becomes the operation's context
@@ -654,6 +754,22 @@ func c11ExecCase(db *gorm.DB, ctx context.Context, cs c11Case) (got, want []stri
 	t := f.table(cs.Op.Parent)
 	w, op := cs.World, cs.Op
 	w.unscoped = op.Unscoped
+	switch op.Ctx {
+	case "prepare":
+		db = db.Session(&gorm.Session{PrepareStmt: true})
+	case "conn":
+		op.Ctx, cs.Op.Ctx = "", ""
+		cerr := db.Connection(func(pinned *gorm.DB) error {
+			// the handle db.Connection passes in is a chain handle (clone = 0: every chain call piles up on its one
+			// statement); as with any chain handle, independent operations are derived from a session of it
+			got, want, err = c11ExecCase(pinned.Session(&gorm.Session{NewDB: true}), ctx, cs)
+			return nil
+		})
+		if err == nil && cerr != nil {
+			err = cerr
+		}
+		return got, want, err
+	}
 	qn := "`" + t.Name + "`.`n`"
 	base := func() *gorm.DB {
 		q := db.Session(&gorm.Session{})
@@ -952,6 +1068,8 @@ func (f *c11Family) genNodes(rng *rand.Rand, t *c11Table, depth int, joinAllowed
 			}
 			if rng.Intn(3) == 0 {
 				nd.Cond = genC11Cond(rng, maxN, []string{"inline", "scope"})
+			} else if rng.Intn(6) == 0 {
+				nd.Cond = c11Cond{Style: "idfunc"} // a function condition that adds nothing
 			}
 			nd.Explicit = rng.Intn(2) == 0
 		}
@@ -987,8 +1105,8 @@ func (t *c11Table) allCols() []string {
 	for _, c := range t.Cols {
 		out = append(out, c.Name)
 	}
-	if !hasCol(t, "id") && modelHasID(t.Model) {
-		out = append(out, "id")
+	if idCol := c11IDCol(t); idCol != "" && !hasCol(t, idCol) {
+		out = append(out, idCol)
 	}
 	return out
 }
@@ -1133,6 +1251,9 @@ func (f *c11Family) genOp(rng *rand.Rand, w c11World) c11Op {
 		}
 		op.Count = rng.Intn(3) == 0
 		op.Unscoped = rng.Intn(5) == 0
+	}
+	if rng.Intn(5) == 0 {
+		op.Ctx = []string{"tx", "prepare", "conn", "txprepare"}[rng.Intn(4)]
 	}
 	return op
 }
